@@ -35,4 +35,25 @@ Theorem C18_messages_contiguous : forall fuel off l msgs,
   parse_sei_messages fuel off l = Some msgs -> contiguous off msgs.
 Proof. exact messages_contiguous. Qed.
 
+(* the rewritten NAL, read back (un-escaped and walked again), holds exactly the other messages:
+   same order, types, sizes and payload bytes (those after the cut moved down by the removed
+   length); and when the removed message was the only HDR10+ one, no HDR10+ message remains *)
+Theorem C18_rewritten_nal_reparses : forall nalbytes msgs m,
+  let data := unescape nalbytes in
+  (4 <= List.length data)%nat ->
+  parse_sei_rbsp data = Some msgs -> (1 < List.length msgs)%nat ->
+  find (is_hdr10plus data) msgs = Some m ->
+  exists pre post out,
+    msgs = pre ++ m :: post /\
+    remove_hdr10plus nalbytes = Ok (true, Some out) /\
+    let data' := unescape out in
+    let post' := map (shift (m_poff m + m_size m - m_off m)) post in
+    parse_sei_rbsp data' = Some (pre ++ post') /\
+    (forall x, In x pre -> payload data' x = payload data x) /\
+    (forall x, In x post -> payload data' (shift (m_poff m + m_size m - m_off m) x) = payload data x) /\
+    ((forall x, In x post -> is_hdr10plus data x = false) ->
+     forall y, In y (pre ++ post') -> is_hdr10plus data' y = false).
+Proof. exact rewritten_nal_reparses. Qed.
+
 Print Assumptions C18_rewrite_cuts_message.
+Print Assumptions C18_rewritten_nal_reparses.
